@@ -26,7 +26,8 @@ RULE = ('models of a grammar whose name and value attributes are STRINGs, filled
 REQUIRED = {'model_exports': 300, 'metamodel_dot_exports': 100, 'plantuml_exports': 100, 'hostile_strings': 500,
             'mixed_lists': 50, 'multi_file_exports': 30, 'nodes_checked': 2000,
             'models_with_value_equal_user_objects': 50, 'models_with_falsy_user_objects': 30,
-            'models_with_property_backed_user_objects': 30, 'models_with_slots_user_objects': 30, 'string_model_exports': 50}
+            'models_with_property_backed_user_objects': 30, 'models_with_slots_user_objects': 30, 'string_model_exports': 50,
+            'models_referring_to_builtin_objects': 50}
 
 GRAMMAR = '''
 Model: imports*=Import objs*=Obj;
@@ -260,7 +261,17 @@ def one(ctx, i, rep=None):
             # the exported model is a string model: alone (i % 12 == 10) or of a metamodel whose global repository already
             # holds a file model (i % 12 == 4)
             strmode = {4: 'global', 10: 'alone'}.get(i % 12)
-            mm = metamodel_from_str(GRAMMAR, classes=classes, global_repository=strmode == 'global')
+            mmkw = {}
+            if i % 12 == 0:
+                # library objects given as builtins: they belong to no exported model and are reached through references only
+                helper = metamodel_from_str(GRAMMAR)
+                lib = helper.model_from_str('obj bi1 val "lib|{1}" kids { obj bikid } obj bi2 num 3')
+                mmkw['builtins'] = {o.name: o for o in lib.objs}
+                texts[0] += 'obj usesbi ref bi1\nobj usesbi2 mix sub sb of bi2 , "s"\n'
+                with open(os.path.join(tmp, 'main.m'), 'w') as f:
+                    f.write(texts[0])
+                ctx.count('models_referring_to_builtin_objects')
+            mm = metamodel_from_str(GRAMMAR, classes=classes, global_repository=strmode == 'global', **mmkw)
             mm.register_scope_providers({'*.*': sp.PlainNameImportURI()})
             try:
                 m = mm.model_from_file(os.path.join(tmp, 'main.m'))
